@@ -12,7 +12,12 @@ RULE = ("correspondence: the Gallina functions generated from utils.py vs the re
         "3*2^k, 5*2^k, random 64/200-bit integers, strings of every lexical class (oracle results of "
         "str.isnumeric/int supplied per case), sizes 1000*2^e+d and random sizes < 2^50, next_power_2 on 1..5000 "
         "and 2^k+-1; end-to-end: the implementation vs the property's own rule on the same domain and through "
-        "TorrentFile(piece_length=), `create --piece-length` and the config key piece-length; automatic choice in one process: "
+        "TorrentFile(piece_length=), `create --piece-length` and the config key piece-length; STRING values that are whitespace only, "
+        "padded, signed, underscored, zero-led, hexadecimal, exponent / decimal-point or non-ASCII-digit spellings through the command "
+        "line in every spelling argparse accepts (`--piece-length V`, `--piece-length=V`, the abbreviations `--piece V` / `--piece=V`, "
+        "before and after the content path), the keyword and the config key: each run is refused with the piece-length error or "
+        "records the power of two >= 16 KiB the value reads as -- never the automatic choice of a value that reads as nothing (the "
+        "payload's automatic length differs from what the padded values read as); automatic choice in one process: "
         "every creator and the command line create, without a piece length, the same relative path string from two working "
         "directories (payload above the first threshold of the choice function, then ~1/16 of it; and the reverse) and the same "
         "absolute path after the payload grew / shrank across that threshold (sparse files) -- each recorded piece length must "
@@ -81,7 +86,8 @@ def int_domain(ctx):
 
 STRINGS = ["", "0", "1", "13", "14", "16", "25", "26", "29", "30", "014", "0016", "16384", "16385", "32768",
            "65536", "65537", "1048576", "-16", "+16", " 16", "16 ", "1_6", "1e4", "16.0", "0x10", "abc", "²", "½",
-           "١٦", "１６", "1６", "2²", "³²", "16\n", "١٦٣٨٤", "1" * 30, "٣٢٧٦٨", "Ⅷ", "十六", "৪", "16384 "]
+           "١٦", "１６", "1６", "2²", "³²", "16\n", "١٦٣٨٤", "1" * 30, "٣٢٧٦٨", "Ⅷ", "十六", "৪", "16384 ",
+           " ", "  ", "\t", "\n", "\r\n", " 16 ", "\t16", "016", "1e1", "٤", "١٥", "15 ", " 15", "\u00a016", "16\u2003"]
 
 
 def check_int_against_spec(ctx, fn, n, route):
@@ -378,6 +384,129 @@ def link_auto_sequences(ctx, tmp):
                 ctx.fail(kind, link_seq_input(creator, seq, steps, k), exp, obs)
 
 
+# ------------------------------------------------------------------------------------------------ string spellings, end to end
+# What a user can type: the value may be blank, padded, signed ... and the option may be spelled in every way argparse accepts.
+E2E_STRINGS = [" ", "\t", "\n", "  ", " 16 ", "16 ", " 16", "\t15", "15\n", "+16", "1_6", "016", "0x10", "1e1", "16.0", "٤", "١٦",
+               "１５", "16", "65536", "3", "abc", "\u00a016"]
+CLI_SPELLINGS = {
+    "--piece-length V": lambda v, rest, content: ["create", "--piece-length", v] + rest + [content],
+    "--piece-length=V": lambda v, rest, content: ["create", "--piece-length=" + v] + rest + [content],
+    "--piece V": lambda v, rest, content: ["create", "--piece", v] + rest + [content],
+    "--piece=V": lambda v, rest, content: ["create"] + rest + ["--piece=" + v, content],
+    "content --piece-length V": lambda v, rest, content: ["create", content] + rest + ["--piece-length", v],
+    "content --piece-le=V": lambda v, rest, content: ["create", content, "--piece-le=" + v] + rest,
+}
+
+
+def readings(s):
+    """the integers a generous reader could take the string for (int() with its padding / sign / underscore / any-script digits,
+       a prefixed literal, a float that is whole); empty when the string reads as nothing (blank, words)"""
+    out = set()
+    for f in (int, lambda t: int(t, 0), lambda t: int(float(t)) if float(t) == int(float(t)) else None):
+        try:
+            v = f(s)
+        except (ValueError, OverflowError):
+            continue
+        if v is not None:
+            out.add(v)
+    d = denotes(s.strip())
+    if d is not None:
+        out.add(d)
+    return sorted(out)
+
+
+def judge_string_e2e(s, r):
+    """the property on a string value: refused with the piece-length error, or a metafile recording the power of two >= 16 KiB that
+       the value reads as.  A plain ASCII decimal the rule accepts must be accepted.  -> (ok, expectation)"""
+    plain = s.isascii() and s.isdigit()
+    good = sorted({spec_int(v)[1] for v in readings(s) if spec_int(v)[0] in ("ok", "either")})
+    exp = {"refused with PieceLengthValueError": not (plain and spec_int(int(s))[0] == "ok"), "or recorded piece length in": good}
+    if r[0] == "ret":
+        return r[1] in good, exp
+    if plain and spec_int(int(s))[0] == "ok":
+        return False, exp
+    return r == ("exc", "PieceLengthValueError"), exp
+
+
+def create_with(tmp, payload, route, v, spelling=None):
+    """one create with the piece length `v` through a route -> ('ret', recorded piece length) | ('exc', name)"""
+    from torrentfile import torrent
+    from torrentfile.cli import execute
+    import pyben
+    out = os.path.join(tmp, "o.torrent")
+    if os.path.exists(out):
+        os.remove(out)
+    sink = io.StringIO()
+    try:
+        with contextlib.redirect_stdout(sink), contextlib.redirect_stderr(sink):
+            if route == "keyword-int":
+                torrent.TorrentFile(path=payload, piece_length=v, outfile=out, progress=0).write()
+            elif route == "keyword-str":
+                torrent.TorrentAssembler(path=payload, piece_length=str(v), outfile=out, progress=0, meta_version="2").write()
+            elif route == "cli":
+                argv = CLI_SPELLINGS[spelling or "--piece-length V"](str(v), ["-o", out, "--prog", "0"], payload)
+                execute(argv)
+            else:
+                ini = os.path.join(tmp, "torrentfile.ini")
+                with open(ini, "w", encoding="utf-8") as fd:
+                    fd.write(f"[config]\npiece-length = {v}\n")
+                execute(["create", "--config", "--config-path", ini, "-o", out, "--prog", "0", payload])
+        r = ("ret", pyben.load(out)["info"]["piece length"]) if os.path.exists(out) else ("exc", "no file written")
+    except BaseException as e:  # noqa
+        r = ("exc", type(e).__name__)
+        if os.path.exists(out):
+            r = ("exc", type(e).__name__ + " but a metafile was written")
+    return r
+
+
+def make_payload(tmp):
+    payload = os.path.join(tmp, "payload")
+    os.makedirs(payload, exist_ok=True)
+    with open(os.path.join(payload, "a.bin"), "wb") as fd:
+        fd.write(b"x" * 70000)
+    with open(os.path.join(payload, "b.bin"), "wb") as fd:
+        fd.write(b"y" * 5)
+    return payload
+
+
+def string_routes(ctx, tmp, payload):
+    """E2E_STRINGS (+ a few random padded ones) through the keyword, every command-line spelling (rotating; all of them for the
+       blank / padded values in the thorough tier) and the config key"""
+    vals = list(E2E_STRINGS)
+    pads = [" ", "\t", "\n", "  ", "\u00a0", "\r"]
+    for _ in range(4 if ctx.tier == "quick" else 60):
+        core_v = ctx.rng.choice(["", "", str(ctx.rng.randrange(14, 26)), str(1 << ctx.rng.randrange(14, 22)), str(ctx.rng.randrange(0, 14))])
+        vals.append(ctx.rng.choice(pads) * ctx.rng.randrange(0, 3) + core_v + ctx.rng.choice(pads) * ctx.rng.randrange(1, 3))
+    names = list(CLI_SPELLINGS)
+    seen = set()
+    for i, s in enumerate(vals):
+        if s in seen or not s:
+            continue            # the empty string means "not given" (DESIGN.md C12 reading)
+        seen.add(s)
+        blank = not s.strip()
+        padded = s != s.strip()
+        if ctx.tier == "quick" and not (blank or padded):
+            spellings = [names[i % len(names)], names[(i + 3) % len(names)]]
+        elif ctx.tier == "quick":
+            spellings = [names[(i + k) % len(names)] for k in (0, 1, 2, 4)]
+        else:
+            spellings = names
+        routes = [("keyword-str", None)] + [("cli", sp) for sp in spellings]
+        if s.strip() == s and len(s.splitlines()) == 1:
+            routes.append(("config", None))       # configparser strips the value itself: only values it delivers unchanged
+        for route, sp in routes:
+            r = create_with(tmp, payload, route, s, sp)
+            ok, exp = judge_string_e2e(s, r)
+            inp = {"route": route, "piece_length": s, "string_route": True}
+            if sp:
+                inp["cli_spelling"] = sp
+            if not ok:
+                ctx.fail("piece-length-e2e-string", inp, exp, list(r))
+            cls = "blank" if blank else "padded" if padded else "plain-decimal" if s.isascii() and s.isdigit() else "other"
+            ctx.case(key=("e2e-str", route, sp, s), classes=[f"e2e {route}", f"e2e string {cls}"] + ([f"e2e cli spelling {sp}"] if sp else []),
+                     sample=dict(inp, recorded=list(r)) if s == " 16 " and sp == "--piece-length=V" else None)
+
+
 def run(ctx, model_ok):
     core.use_repo_in_process()
     from torrentfile import utils
@@ -522,12 +651,7 @@ def run(ctx, model_ok):
         vals.append(ctx.rng.choice([ctx.rng.randrange(14, 30), 1 << ctx.rng.randrange(10, 28),
                                     ctx.rng.randrange(16384, 200000)]))
     with core.Scratch("vc12_") as tmp:
-        payload = os.path.join(tmp, "payload")
-        os.makedirs(payload)
-        with open(os.path.join(payload, "a.bin"), "wb") as fd:
-            fd.write(b"x" * 70000)
-        with open(os.path.join(payload, "b.bin"), "wb") as fd:
-            fd.write(b"y" * 5)
+        payload = make_payload(tmp)
         cwd = os.getcwd()
         os.chdir(tmp)
         os.environ["HOME"] = tmp
@@ -536,29 +660,7 @@ def run(ctx, model_ok):
                 for route in ("keyword-int", "keyword-str", "cli", "config"):
                     if v == 0 and route == "keyword-int":
                         continue        # 0/None/"" as keyword mean "not given" (DESIGN.md C12 reading)
-                    out = os.path.join(tmp, "o.torrent")
-                    if os.path.exists(out):
-                        os.remove(out)
-                    sink = io.StringIO()
-                    try:
-                        with contextlib.redirect_stdout(sink), contextlib.redirect_stderr(sink):
-                            if route == "keyword-int":
-                                torrent.TorrentFile(path=payload, piece_length=v, outfile=out, progress=0).write()
-                            elif route == "keyword-str":
-                                torrent.TorrentAssembler(path=payload, piece_length=str(v), outfile=out,
-                                                         progress=0, meta_version="2").write()
-                            elif route == "cli":
-                                execute(["create", "--piece-length", str(v), "-o", out, "--prog", "0", payload])
-                            else:
-                                ini = os.path.join(tmp, "torrentfile.ini")
-                                with open(ini, "w") as fd:
-                                    fd.write(f"[config]\npiece-length = {v}\n")
-                                execute(["create", "--config", "--config-path", ini, "-o", out, "--prog", "0", payload])
-                        r = ("ret", pyben.load(out)["info"]["piece length"]) if os.path.exists(out) else ("exc", "no file written")
-                    except BaseException as e:  # noqa
-                        r = ("exc", type(e).__name__)
-                        if os.path.exists(out):
-                            r = ("exc", type(e).__name__ + " but a metafile was written")
+                    r = create_with(tmp, payload, route, v)
                     sp = spec_int(v)
                     if sp[0] == "ok":
                         ok = r == ("ret", sp[1])
@@ -570,6 +672,7 @@ def run(ctx, model_ok):
                         ctx.fail("piece-length-e2e", {"route": route, "piece_length": v}, list(sp), list(r))
                     ctx.case(key=("e2e", route, v), classes=[f"e2e {route}"],
                              sample={"route": route, "piece_length": v, "recorded": list(r)} if v == 16 and route == "cli" else None)
+            string_routes(ctx, tmp, payload)
             # automatic choice through the library on sparse files
             sp = os.path.join(tmp, "sparse.bin")
             prev = None
@@ -624,6 +727,21 @@ def replay(ctx, data):
             print(f"[C12 replay] VIOLATION {kind} at step {k}: expected {exp}, observed {obs}")
         print("[C12 replay] verdict:", "property VIOLATED on this input" if probs else "the property holds on this input")
         return 1 if probs else 0
+    if inp.get("string_route") and inp.get("route") in ("keyword-str", "cli", "config"):
+        with core.Scratch("vc12r_") as tmp:
+            os.environ["HOME"] = tmp
+            payload = make_payload(tmp)
+            cwd = os.getcwd()
+            os.chdir(tmp)
+            try:
+                r = create_with(tmp, payload, inp["route"], inp["piece_length"], inp.get("cli_spelling"))
+            finally:
+                os.chdir(cwd)
+        ok, exp = judge_string_e2e(inp["piece_length"], r)
+        print(f"[C12 replay] create with the piece length {inp['piece_length']!r} through {inp['route']} "
+              f"{inp.get('cli_spelling') or ''}: {r}; the property allows: {exp}")
+        print("[C12 replay] verdict:", "the property holds on this input" if ok else "property VIOLATED on this input")
+        return 0 if ok else 1
     if "piece_length" in inp:
         r = call(utils.normalize_piece_length, inp["piece_length"])
         print("normalize_piece_length(%r) -> %r ; rule: %r" % (inp["piece_length"], r,
